@@ -538,7 +538,7 @@ def beast_specs(rng, nframes, force_1a=True):
         x, n = rand_msg(rng, long_)
         b = bytearray(x.to_bytes(n // 8, "big"))
         ts = bytearray(rng.randbytes(6))
-        sig = rng.choice((0, rng.randrange(256), rng.randrange(256)))
+        sig = rng.choice((0, 255, 1, 254, rng.randrange(256), rng.randrange(256)))     # the signal level is free: silent, saturated, any
         if force_1a:
             where = rng.choice(("ts", "sig", "msg", "last", "msg2", "none", "run", "heavy"))
             if where == "heavy":
